@@ -497,7 +497,11 @@ def _ast_mutation(rule):
         frs = [d for d in doc.definitions if d.kind == "fragment_definition"]
         if not ops and not frs:
             return "skip"
-        first = (ops or frs)[0]
+        defs_ = ops + frs
+        first = defs_[c.ch.draw("op.which", len(defs_))] if rule in ("unknown_field", "leaf_with_selection", "object_without_selection",
+                                                                   "unknown_argument", "unknown_directive", "conflicting_fields",
+                                                                   "unknown_fragment_spread", "missing_required_argument",
+                                                                   "wrong_literal_type", "directive_missing_required_arg") else (ops or frs)[0]
 
         def all_fields(node, acc):
             ss = getattr(node, "selection_set", None)
